@@ -55,6 +55,21 @@ def check_tri(ctx, cs, meshes):
         if not ok:
             continue
         obj, V, F = r
+        if sh is SURFS[0] and s == 1:
+            # a deep copy is moved and tessellated: the mesh of the original is still its own
+            try:
+                import copy as _copy
+                from geomdl import operations as _ops
+                cp = _copy.deepcopy(obj)
+                _ops.translate(cp, [50.0, 50.0, 50.0], inplace=True)
+                cp.tessellate(vertex_spacing=s)
+                now = [list(v.data) for v in obj.vertices]
+                was = [list(v.data) for v in V]
+                moved = [list(v.data) for v in cp.vertices]
+                if not close_seq(now, was, 1e-12) or len(moved) != len(was) or not close_seq(moved, [[x + 50.0 for x in q] for q in was], 1e-9):
+                    ctx.violate("abstract.GeomdlBase.__deepcopy__", tg + ["tessellation_shared_with_copy"], small, {"n_original": len(now), "n_copy": len(moved)})
+            except Exception as e:
+                ctx.violate("abstract.GeomdlBase.__deepcopy__", tg + ["tessellation_shared_with_copy", "raises"], small, {"exception": repr(e)[:200]})
         if len(V) != len(o["pos"]) or len(F) != len(o["tris"]):
             ctx.violate(site, tg + ["counts"], small, {"vertices": [len(V), len(o["pos"])], "faces": [len(F), len(o["tris"])]})
             continue
